@@ -352,6 +352,14 @@ class Exec:
             r = self.contains(b, a, st)
             return r if on == 'In' else NOT(r)
         pa_, pb = st.deref(a), st.deref(b)
+        if tag(pa_) == 'typeof' or tag(pb) == 'typeof':
+            tv, other = (pa_, pb) if tag(pa_) == 'typeof' else (pb, pa_)
+            if tag(other) not in ('builtin', 'ext', 'class'):
+                raise Unsupported('type() compared with %r' % (other,))
+            r = self.np.has_type(tv[1], other[1], True)
+            if on == 'Eq': return r
+            if on == 'NotEq': return NOT(r)
+            raise Unsupported('ordering of types')
         if isinstance(pa_, SArr) or isinstance(pb, SArr):
             return self.np.elementwise_cmp(on, pa_, pb, st, node)
         if isinstance(pa_, V.SSet) or isinstance(pb, V.SSet):
@@ -418,6 +426,11 @@ class Exec:
 
     def contains(self, cont, x, st):
         c = st.deref(cont)
+        if tag(x) == 'typeof':
+            items = c.concrete_items() if isinstance(c, SList) else (list(c) if isinstance(c, tuple) else None)
+            if items is None:
+                raise Unsupported('type() membership in a symbolic container')
+            return OR(*[self.np.has_type(x[1], it[1], True) for it in items])
         if isinstance(c, SSet):
             return c.member(x)
         if isinstance(c, SList):
@@ -552,6 +565,10 @@ class Exec:
         if tag(base) in ('whereres',):
             return self.np.where_item(base, idx, st)
         pv = st.deref(base)
+        if isinstance(pv, IvVal):
+            if idx == 0: return pv.a
+            if idx == 1: return pv.b
+            raise Unsupported('index into an intervention value')
         if isinstance(pv, tuple):
             if isinstance(idx, int):
                 return pv[idx]
@@ -928,6 +945,13 @@ class Exec:
                     self.np.havoc_global(tgt[1], st)
         loc.heap, loc.ver = st.heap, st.ver
         # 4. result
+        for cl in c.of('let'):          # lets that do not mention the result are available to the defining clauses
+            for k2, a in cl.kw.items():
+                try:
+                    loc.env[k2] = self.evs(a, loc)
+                except Unsupported as u:
+                    if 'unbound name' not in str(u):
+                        raise
         rt = eval_type(c.returns) if c.returns is not None else None
         result = None
         post = []
@@ -963,7 +987,8 @@ class Exec:
             loc.env['self'] = self_obj
         for cl in c.of('let'):
             for k2, a in cl.kw.items():
-                loc.env[k2] = self.evs(a, loc)
+                if k2 not in loc.env:
+                    loc.env[k2] = self.evs(a, loc)
         for cl in c.of('functional'):       # functional(<result component>, 'name', shape-expr, args...): result is a function of args
             tgt = st.deref(self.evs(cl.args[0], loc))
             name = ast.literal_eval(cl.args[1])
